@@ -296,10 +296,14 @@ class DataPoint(dict):
         if hasattr(self, 'units') and self.units[self.observable] == 'pb/GeV^4':
             val = val*1000
         # C2. phi_{BKM} --> (pi - phi_{Trento})
-        if 'frame' in self and self.frame == 'Trento' and 'FTn' in self:
+        # (as in from_conventions: harmonics flip sign only when the point
+        #  is not given at explicit angle phi (varphi))
+        if ('frame' in self and self.frame == 'Trento' and 'phi' not in self
+                and 'FTn' in self):
             if self.FTn == 1 or self.FTn == 3 or self.FTn == -2:
                 val = - val
-        if 'frame' in self and self.frame == 'Trento' and 'varFTn' in self:
+        if ('frame' in self and self.frame == 'Trento' and 'varphi' not in self
+                and 'varFTn' in self):
             if self.varFTn == 1 or self.varFTn == -1:
                 val = - val
         return val
